@@ -956,7 +956,8 @@ func (g *Gen) MutateWPlus(b *Bundle) WPlusInfo {
 			// is a nil pointer of a concrete type in the schema model)
 			tail := [][]string{{"properties", "doesNotExist"}, {"items"}, {"additionalProperties"}, {"additionalItems"}, {"not"}, {"items", "0"}}[g.r.Intn(6)]
 			dn := g.anyDef("root")
-			if t := root.Ch["definitions"].Ch[dn]; t != nil && len(tail) >= 1 && t.Ch[tail[0]] != nil {
+			// (an alias definition is expanded in place by the expander, after which a pointer "through" it may well resolve: not claimed)
+			if t := root.Ch["definitions"].Ch[dn]; t != nil && len(tail) >= 1 && (t.Ch[tail[0]] != nil || t.Ref() != nil) {
 				tail = []string{"properties", "doesNotExist"}
 			}
 			root.Get(h).At["$ref"] = append([]string{"root", "definitions", dn}, tail...)
